@@ -33,7 +33,9 @@ class VPath:
         return hash(self.name_)
 
     def __str__(self):
-        return f"<dir {self.dir}>/{self.name_}"
+        s = VStr(f"<dir {self.dir}>/{self.name_}")
+        s.vpath = self
+        return s
 
     def __fspath__(self):
         return str(self)
@@ -49,6 +51,10 @@ class VPath:
 
     def resolve(self):
         return self
+
+
+class VStr(str):
+    """str(VPath): remembers the path it renders"""
 
 
 class VFile:
@@ -302,11 +308,13 @@ class VFS:
     def resolve_path(self, p):
         if isinstance(p, VPath):
             return p
+        if isinstance(p, VStr):
+            return p.vpath
         return VPath(self.cwd, str(p))
 
     def path_ctor(self, p):
         """stands in for pathlib.Path(x) inside the library"""
-        return p if isinstance(p, VPath) else VPath(self.cwd, str(p))
+        return self.resolve_path(p)
 
     def lookup(self, p):
         p = self.resolve_path(p)
